@@ -132,6 +132,11 @@ CHECKS["C01"] = {
          "cover": ["own-store", "own-fetch", "own-plain", "update-delivered"]},
         {"name": "idlebulk", "pkg": "internal/session", "pkgname": "session", "entry": "VerifC01IdleBulk", "files": ["zz_verif_c01idle.go"],
          "params": {"quick": [{}], "thorough": [{}]}, "cover": ["idle-bulk"]},
+        {"name": "idle", "pkg": "internal/session", "pkgname": "session", "entry": "VerifC01Idle", "files": ["zz_verif_c18.go", "zz_verif_c18b.go", "zz_verif_c01.go", "zz_verif_c01idle.go", "zz_verif_c01idle2.go"],
+         "with": ["state_export", "backend_export", "verifdb"], "goroutines": True,
+         "extra_overlay": {"internal/response/zz_verif_decode.go": "internal/response/zz_verif_decode.go"},
+         "params": {"quick": grid(k=[1, 2], bulk=[0]) + grid(k=[2], bulk=[1]), "thorough": grid(k=[3], bulk=[0, 1])},
+         "cover": ["idle-done", "idle-update-sent"]},
     ],
     "stubs": ["state.UserInterface -> verifUser (applies updates to the originating state immediately, queues for the others)", "db.Client/Transaction -> verifMiniDB (only ClearRecentFlagInMailboxOnMessage; any other call = stub missing)", "logrus -> no-op"],
     "outside": ["wire rendering of individual responses (String() via fmt)", "the goroutine hand-over between IDLE's reader and sender (the sender's loop itself is the idlebulk harness)", "true concurrency between sessions (covered as arbitrary orders of queued updates/responders and arbitrary delivery points between commands)", "histories longer than k / views larger than n", "more than two sessions"],
